@@ -48,7 +48,7 @@ type stdBatch struct {
 // of the property: who originated the batch, through which ODFI, as what.
 func identNames(kind string) []string {
 	if kind == "IAT" {
-		return []string{"OriginatorIdentification", "StandardEntryClassCode", "CompanyEntryDescription", "ODFIIdentification"}
+		return []string{"OriginatorIdentification", "StandardEntryClassCode", "CompanyEntryDescription", "ODFIIdentification", "IATIndicator"}
 	}
 	return []string{"CompanyName", "CompanyIdentification", "StandardEntryClassCode", "CompanyEntryDescription", "ODFIIdentification"}
 }
@@ -65,7 +65,7 @@ func identOfIAT(b *ach.IATBatch) []string {
 	if bc := b.GetControl(); bc != nil {
 		ci = bc.CompanyIdentification
 	}
-	return []string{bh.OriginatorIdentification, bh.StandardEntryClassCode, bh.CompanyEntryDescription, bh.ODFIIdentification, ci}
+	return []string{bh.OriginatorIdentification, bh.StandardEntryClassCode, bh.CompanyEntryDescription, bh.ODFIIdentification, bh.IATIndicator, ci}
 }
 
 // maskLine blanks, for ADV entries only, the 4 digit sequence number that Batch.build assigns by position.
@@ -453,15 +453,16 @@ func run(t *T) {
 	for i := 0; i < n; i++ {
 		r := t.R.Fork(uint64(i))
 		o := gen.Opts{
-			SECs:         secSets[i%len(secSets)],
-			Categories:   gen.AllCategories(),
-			MinBatches:   1,
-			MaxBatches:   1 + r.Intn(7),
-			MaxEntries:   1 + r.Intn(6),
-			PresetTraces: r.Bool(),
-			Offset:       r.Chance(1, 3),
-			FullWidth:    r.Chance(1, 6),
-			NonASCII:     r.Chance(1, 8),
+			IATCorrections: true,
+			SECs:           secSets[i%len(secSets)],
+			Categories:     gen.AllCategories(),
+			MinBatches:     1,
+			MaxBatches:     1 + r.Intn(7),
+			MaxEntries:     1 + r.Intn(6),
+			PresetTraces:   r.Bool(),
+			Offset:         r.Chance(1, 3),
+			FullWidth:      r.Chance(1, 6),
+			NonASCII:       r.Chance(1, 8),
 		}
 		if r.Chance(1, 4) {
 			o.Categories = nil // forward only
